@@ -29,7 +29,13 @@ func (f *memFile) Write(p []byte) error        { f.data = append(f.data, p...); 
 func (f *memFile) Finish() error               { return nil }
 func (f *memFile) Abort()                      {}
 func (f *memFile) StartMetadataPortion() error { return nil }
+// readAtCalls / readAtBytes count the work of a read-out (deterministic; used
+// for the cost estimate of a file, never as an oracle).
+var readAtCalls, readAtBytes int64
+
 func (f *memFile) ReadAt(_ context.Context, p []byte, off int64) error {
+	readAtCalls++
+	readAtBytes += int64(len(p))
 	if off < 0 || off+int64(len(p)) > int64(len(f.data)) {
 		return fmt.Errorf("memFile: read [%d,%d) past end %d", off, off+int64(len(p)), len(f.data))
 	}
